@@ -2,14 +2,28 @@
    Section over an arbitrary block function E (the stream's key is fixed: E = encryption under it;
    "a new key" is another instance of the Section).
 
+   The BOOKKEEPING ARITHMETIC is not written here: every statement of the C that updates
+   stream->bytectr, *buflen / buflen, *inbuf / *outbuf, the AES-NI block counter, its loop counter
+   and stream->pblk[15], every branch / loop condition over them and the (nbytes, bytemod)
+   arguments of the cipherblock_use calls are REGENERATED from the C text as expression trees
+   (Gen/Repo_aes_arith.v, tools/extract/x_aes.py) and EVALUATED here with C integer semantics
+   (Crypto/AesCtrArith.v: literal types, integer promotions, usual arithmetic conversions, wrap at
+   the width of the C type).  What stays hand-written is the control skeleton (which helper calls
+   which; checked against the C text by the translator, EUnknown / SUnknown -> Fault otherwise),
+   the byte loop of cipherblock_use and the __m128i statements of the AES-NI loop body.
+   *inbuf / *outbuf are tracked as offsets; the buffers being lists, an advance other than the
+   number of bytes just processed has no form here: Fault.
+
    struct crypto_aesctr { key; uint64_t bytectr; uint8_t buf[16]; uint8_t pblk[16]; }
    becomes the record [st]; every C function that mutates through the pointer returns the new
    record.  bytectr wraps mod 2^64 where the C type does; assert() is AssertFail; a call pattern
    the C would answer by running off its buffers is Fault.  (inbuf, outbuf, buflen) are the input
    list still to be processed, the output produced, and the explicit N [buflen] of the C.
    No proofs in this file. *)
-From Coq Require Import NArith List Arith Bool.
+From Coq Require Import NArith ZArith List Arith Bool.
 From LCP Require Import Base.CheckedMem.
+From LCP Require Import Crypto.AesCtrArith.
+From LCP Require Import Gen.Repo_aes_arith.
 From LCP Require Import Crypto.AesSpec.
 From LCP Require Import Accel.AesNi.
 Import ListNotations.
@@ -38,105 +52,184 @@ Section Model.
      reachable without producing gigabytes of keystream. *)
   Definition seek (pos : N) (s : st) : st := mkst (pos mod two64) (buf s) (pblk s).
 
-  (* crypto_aesctr_stream_cipherblock_generate *)
+  (* ---------------------------------------------------------------- evaluation helpers *)
+  (* an object of C type t holding n (what is read from memory is a value of that type) *)
+  Definition var (id : N) (t : cty) (n : N) : N * (cty * option Z) := (id, (t, Some (cvt t (Z.of_N n)))).
+  Fixpoint locals (l : list (N * cty)) : env :=
+    match l with [] => [] | d :: r => (fst d, (snd d, None)) :: locals r end.
+  Fixpoint env_app (a b : env) : env := match a with [] => b | x :: r => x :: env_app r b end.
+  Definition nonzero (z : Z) : bool := negb (Z.eqb z 0).
+  (* value of an expression as N; an argument expression is first converted to the type of the
+     parameter it is passed to *)
+  Definition valN (r : cty * Z * bool) : N := Z.to_N (snd (fst r)).
+  Definition valZ (r : cty * Z * bool) : Z := snd (fst r).
+  Definition argN (t : cty) (r : cty * Z * bool) : N := Z.to_N (conv (fst (fst r)) t (snd (fst r))).
+  Definition def (r : cty * Z * bool) : bool := snd r.
+  (* every function below computes its result together with a flag "everything evaluated is
+     defined in C and has a form here"; when the flag is false the answer is Fault *)
+  Definition guard {A} (ok : bool) (r : res A) : res A := if ok then r else Fault.
+
+  (* crypto_aesctr_stream_cipherblock_generate:
+       assert(gen_assert); gen_stmts (stream->pblk[K]++); if (gen_wrap_cond) gen_be64; encrypt *)
   Definition generate (s : st) : res st :=
-    if negb (bytectr s mod 16 =? 0) then AssertFail else
-    let p15 := (nth 15 (pblk s) 0 + 1) mod 256 in              (* stream->pblk[15]++ (uint8_t) *)
-    let p := upd_byte (pblk s) 15 p15 in
-    let p := if p15 =? 0
-             then firstn 8 p ++ be64 (bytectr s / 16)          (* be64enc(pblk + 8, bytectr / 16) *)
-             else p in
-    Ok (mkst (bytectr s) (E p) p).
+    let idx := N.to_nat gen_pblk_idx in
+    let e := [var V_BYTECTR ty_bytectr (bytectr s); var V_PBLKB ty_pblk (nth idx (pblk s) 0)] in
+    let a := eval e gen_assert in
+    let e1 := run e gen_stmts in
+    let b := get (fst e1) V_PBLKB in
+    let p := upd_byte (pblk s) idx (valN b) in
+    let w := eval (fst e1) gen_wrap_cond in
+    let p' := if nonzero (valZ w) then
+                match gen_be64 with
+                | [SBe64 1 off x] =>                      (* be64enc(stream->pblk + off, x) *)
+                  let v := eval (fst e1) x in
+                  (firstn (N.to_nat off) p ++ be64 (valN v) ++ skipn (N.to_nat off + 8) p, def v)
+                | _ => (p, false)
+                end
+              else (p, true) in
+    guard (def a && snd e1 && def b && def w && snd p')
+      (if nonzero (valZ a) then Ok (mkst (bytectr s) (E (fst p')) (fst p')) else AssertFail).
 
-  (* crypto_aesctr_stream_cipherblock_use: out[i] = in[i] ^ buf[bytemod + i] for i < nbytes;
-     returns (state, bytes written, input left, buflen left) *)
-  Definition use (s : st) (inp : list N) (buflen nbytes bytemod : N) : st * list N * list N * N :=
+  (* crypto_aesctr_stream_cipherblock_use: out[i] = in[i] ^ buf[bytemod + i] for i < nbytes, then
+     use_stmts; returns (state, bytes written, input left, buflen left) *)
+  Definition use (s : st) (inp : list N) (buflen nbytes bytemod : N) : res (st * list N * list N * N) :=
+    let e := [var V_BYTECTR ty_bytectr (bytectr s); var V_BUFLEN use_ty_buflen buflen;
+              var V_INOFF U64 0; var V_OUTOFF U64 0;
+              var V_NBYTES use_ty_nbytes nbytes; var V_BYTEMOD use_ty_bytemod bytemod] in
     let n := N.to_nat nbytes in
-    (mkst ((bytectr s + nbytes) mod two64) (buf s) (pblk s),
-     xor_list (firstn n inp) (skipn (N.to_nat bytemod) (buf s)),
-     skipn n inp,
-     buflen - nbytes).
+    let o := xor_list (firstn n inp) (skipn (N.to_nat bytemod) (buf s)) in
+    let e1 := run e use_stmts in
+    let b := get (fst e1) V_BYTECTR in
+    let io := get (fst e1) V_INOFF in
+    let oo := get (fst e1) V_OUTOFF in
+    let bl := get (fst e1) V_BUFLEN in
+    guard (snd e1 && def b && def io && def oo && def bl && Z.eqb (valZ io) (Z.of_N nbytes) && Z.eqb (valZ oo) (Z.of_N nbytes))
+      (Ok (mkst (valN b) (buf s) (pblk s), o, skipn n inp, valN bl)).
 
-  (* crypto_aesctr_stream_pre_wholeblock; the bool is its return value *)
-  Definition pre_whole (s : st) (inp : list N) (buflen : N) : st * list N * list N * N * bool :=
-    let bytemod := bytectr s mod 16 in
-    if negb (bytemod =? 0) then
-      if bytemod + buflen <=? 16 then
-        (use s inp buflen buflen bytemod, true)
-      else
-        (use s inp buflen (16 - bytemod) bytemod, false)
-    else (s, [], inp, buflen, false).
+  (* crypto_aesctr_stream_pre_wholeblock; the bool is its return value:
+       pre_stmts (bytemod = ..); if (pre_cond1) { if (pre_cond2) { use(pre_call1); return 1; }
+       use(pre_call2); } return 0; *)
+  Definition pre_whole (s : st) (inp : list N) (buflen : N) : res (st * list N * list N * N * bool) :=
+    let e := env_app [var V_BYTECTR ty_bytectr (bytectr s); var V_BUFLEN pre_ty_buflen buflen] (locals pre_decls) in
+    let e1 := run e pre_stmts in
+    let c1 := eval (fst e1) pre_cond1 in
+    let c2 := eval (fst e1) pre_cond2 in
+    let call := if nonzero (valZ c2) then pre_call1 else pre_call2 in
+    let nb := eval (fst e1) (fst call) in
+    let bm := eval (fst e1) (snd call) in
+    guard (snd e1 && def c1)
+      (if nonzero (valZ c1) then
+         guard (def c2 && def nb && def bm)
+           (let* r := use s inp buflen (argN use_ty_nbytes nb) (argN use_ty_bytemod bm) in
+            Ok (r, nonzero (valZ c2)))
+       else Ok (s, [], inp, buflen, false)).
 
-  (* the loop  while (buflen >= 16) { generate; use(16, 0) }  of crypto_aesctr_stream *)
+  (* the loop  while (sw_cond) { generate; use(sw_call) }  of crypto_aesctr_stream *)
   Fixpoint whole (fuel : nat) (s : st) (inp : list N) (buflen : N) {struct fuel}
     : res (st * list N * list N * N) :=
-    if 16 <=? buflen then
-      match fuel with
-      | O => OutOfFuel
-      | S f =>
-        let* s1 := generate s in
-        let '(s2, o, rest, bl) := use s1 inp buflen 16 0 in
-        let* (s3, o', rest', bl') := whole f s2 rest bl in
-        Ok (s3, o ++ o', rest', bl')
-      end
-    else Ok (s, [], inp, buflen).
+    let e := [var V_BYTECTR ty_bytectr (bytectr s); var V_BUFLEN sw_ty_buflen buflen] in
+    let c := eval e sw_cond in
+    let nb := eval e (fst sw_call) in
+    let bm := eval e (snd sw_call) in
+    guard (def c)
+      (if nonzero (valZ c) then
+         match fuel with
+         | O => OutOfFuel
+         | S f =>
+           guard (def nb && def bm)
+             (let* s1 := generate s in
+              let* (s2, o, rest, bl) := use s1 inp buflen (argN use_ty_nbytes nb) (argN use_ty_bytemod bm) in
+              let* (s3, o', rest', bl') := whole f s2 rest bl in
+              Ok (s3, o ++ o', rest', bl'))
+         end
+       else Ok (s, [], inp, buflen)).
 
-  (* crypto_aesctr_stream_post_wholeblock *)
+  (* crypto_aesctr_stream_post_wholeblock:  if (post_cond) { generate; use(post_call) } *)
   Definition post_whole (s : st) (inp : list N) (buflen : N) : res (st * list N) :=
-    if 0 <? buflen then
-      let* s1 := generate s in
-      let '(s2, o, _, _) := use s1 inp buflen buflen 0 in
-      Ok (s2, o)
-    else Ok (s, []).
+    let e := [var V_BYTECTR ty_bytectr (bytectr s); var V_BUFLEN post_ty_buflen buflen] in
+    let c := eval e post_cond in
+    let nb := eval e (fst post_call) in
+    let bm := eval e (snd post_call) in
+    guard (def c)
+      (if nonzero (valZ c) then
+         guard (def nb && def bm)
+           (let* s1 := generate s in
+            let* (s2, o, _, _) := use s1 inp buflen (argN use_ty_nbytes nb) (argN use_ty_bytemod bm) in
+            Ok (s2, o))
+       else Ok (s, [])).
 
   (* crypto_aesctr_stream, software path: returns (state, bytes written to outbuf) *)
   Definition stream (s : st) (inp : list N) : res (st * list N) :=
     let buflen := N.of_nat (length inp) in
-    let '(s1, o1, rest, bl, done) := pre_whole s inp buflen in
+    let* (s1, o1, rest, bl, done) := pre_whole s inp buflen in
     if done then Ok (s1, o1) else
     let* (s2, o2, rest2, bl2) := whole (length inp) s1 rest bl in
     let* (s3, o3) := post_whole s2 rest2 bl2 in
     Ok (s3, o1 ++ o2 ++ o3).
 
   (* ---------------------------------------------------------------- crypto_aesctr_aesni.c *)
-  (* the do { ... } while (--i > 0) body, executed n+1 times; returns
-     (bytes written, input left, block_counter, block_counter_be_arr of the last iteration) *)
-  Fixpoint bulk (n : nat) (nonce_be : m128) (block_counter : N) (inp : list N) {struct n}
-    : list N * list N * N * list N :=
-    let arr := be64 block_counter in                                   (* be64enc(arr, block_counter) *)
-    let bufsse := E (mm_unpacklo_epi64 nonce_be (load_si64 arr)) in    (* encrypt_block_aesni_m128i *)
-    let o := xor_list (firstn 16 inp) bufsse in                        (* loadu; xor; storeu *)
-    let ctr' := (block_counter + 1) mod two64 in                       (* block_counter++ *)
-    match n with
-    | O => (o, skipn 16 inp, ctr', arr)
-    | S n' =>
-      let '(o', rest, c, a) := bulk n' nonce_be ctr' (skipn 16 inp) in
-      (o ++ o', rest, c, a)
+  (* the do { be64enc(arr, bexpr); <__m128i statements>; body } while (wb_cond) loop; returns
+     (variables, bytes written, input left, block_counter_be_arr of the last iteration).
+     The __m128i statements read 16 bytes at *inbuf: with fewer left they run off the buffer.
+     *inbuf / *outbuf are offsets within the iteration. *)
+  Fixpoint ni_loop (fuel : nat) (nonce_be : m128) (bexpr : cexpr) (body : list cstmt)
+                   (e : env) (inp : list N) {struct fuel} : res (env * list N * list N * list N) :=
+    match fuel with
+    | O => OutOfFuel
+    | S f =>
+      match skipn 15 inp with
+      | [] => Fault
+      | _ :: _ =>
+        let c := eval e bexpr in
+        let arr := be64 (valN c) in                                        (* be64enc(arr, bexpr) *)
+        let bufsse := E (mm_unpacklo_epi64 nonce_be (load_si64 arr)) in    (* encrypt_block_aesni_m128i *)
+        let o := xor_list (firstn 16 inp) bufsse in                        (* loadu; xor; storeu *)
+        let e0 := set e V_INOFF U64 0 in
+        let e0' := set (fst e0) V_OUTOFF U64 0 in
+        let e1 := run (fst e0') body in                                    (* block_counter++; *inbuf += 16; .. *)
+        let io := get (fst e1) V_INOFF in
+        let oo := get (fst e1) V_OUTOFF in
+        let cnd := eval (fst e1) wb_cond in
+        guard (def c && snd e0 && snd e0' && snd e1 && def io && def oo && def cnd &&
+               Z.eqb (valZ io) 16 && Z.eqb (valZ oo) 16)
+          (if nonzero (valZ cnd) then
+             let* (e2, o', rest, arr') := ni_loop f nonce_be bexpr body (fst e1) (skipn 16 inp) in
+             Ok (e2, o ++ o', rest, arr')
+           else Ok (fst e1, o, skipn 16 inp, arr))
+      end
     end.
 
-  (* crypto_aesctr_aesni_stream_wholeblocks; entered with num_blocks = 0 the do-while would run
-     2^64 times over the buffers: Fault *)
+  (* crypto_aesctr_aesni_stream_wholeblocks: wb_prologue; the loop; wb_epilogue (its scalar
+     statements in source order and memcpy(stream->pblk + off, arr, len)) *)
   Definition wholeblocks_aesni (s : st) (inp : list N) (buflen : N)
     : res (st * list N * list N * N) :=
     let nonce_be := load_si64 (pblk s) in
-    let block_counter := bytectr s / 16 in
-    let num_blocks := buflen / 16 in
-    match N.to_nat num_blocks with
-    | O => Fault
-    | S n =>
-      let '(o, rest, _, arr) := bulk n nonce_be block_counter inp in
-      Ok (mkst ((bytectr s + 16 * num_blocks) mod two64) (buf s)
-               (firstn 8 (pblk s) ++ arr),                 (* memcpy(pblk + 8, arr, 8) *)
-          o, rest, buflen - 16 * num_blocks)
+    let e := env_app [var V_BYTECTR ty_bytectr (bytectr s); var V_BUFLEN wb_ty_buflen buflen;
+                      var V_INOFF U64 0; var V_OUTOFF U64 0] (locals wb_decls) in
+    match body_parts wb_body, the_memcpy wb_epilogue with
+    | Some (bexpr, body), Some (off, len) =>
+      let e1 := run e wb_prologue in
+      guard (snd e1)
+        (let* (e2, o, rest, arr) := ni_loop (S (length inp)) nonce_be bexpr body (fst e1) inp in
+         let e3 := run e2 wb_epilogue in
+         let b := get (fst e3) V_BYTECTR in
+         let bl := get (fst e3) V_BUFLEN in
+         let p := pblk s in
+         guard (snd e3 && def b && def bl)
+           (Ok (mkst (valN b) (buf s)
+                     (firstn (N.to_nat off) p ++ firstn (N.to_nat len) arr ++ skipn (N.to_nat off + N.to_nat len) p),
+                o, rest, valN bl)))
+    | _, _ => Fault
     end.
 
-  (* crypto_aesctr_aesni_stream *)
+  (* crypto_aesctr_aesni_stream:  pre; if (ni_cond) wholeblocks; post *)
   Definition stream_aesni (s : st) (inp : list N) : res (st * list N) :=
     let buflen := N.of_nat (length inp) in
-    let '(s1, o1, rest, bl, done) := pre_whole s inp buflen in
+    let* (s1, o1, rest, bl, done) := pre_whole s inp buflen in
     if done then Ok (s1, o1) else
+    let c := eval [var V_BYTECTR ty_bytectr (bytectr s1); var V_BUFLEN ni_ty_buflen bl] ni_cond in
     let* (s2, o2, rest2, bl2) :=
-       if 16 <=? bl then wholeblocks_aesni s1 rest bl else Ok (s1, [], rest, bl) in
+       guard (def c) (if nonzero (valZ c) then wholeblocks_aesni s1 rest bl else Ok (s1, [], rest, bl)) in
     let* (s3, o3) := post_whole s2 rest2 bl2 in
     Ok (s3, o1 ++ o2 ++ o3).
 
